@@ -25,7 +25,7 @@ Ltac ev_in H := unfold entry, call_depth, init_frame in H;
 Ltac rw_atoms H :=
   repeat match goal with
   | E : ?a = ?b |- _ =>
-      tryif is_var a then fail else
+      tryif first [is_var a | constr_eq a b] then fail else
       match type of H with context [a] => rewrite E in H end
   end.
 Ltac split_state st :=
@@ -372,6 +372,19 @@ Proof.
     + rewrite HL, Z.eqb_refl. repeat split; auto. discriminate.
 Qed.
 
+Lemma wf_occupied' : forall o d rg n fb i sig ids fb' I,
+  wf o {| disp_of := d; reg := rg; next_id := n; fallback := fb; inst := i |} ->
+  lookup sig rg = Some ids -> (n + 1 < 2 ^ 128)%N -> inst_grows sig i I ->
+  wf o {| disp_of := d; reg := add_id sig n rg; next_id := id_succ n; fallback := fb'; inst := I |}.
+Proof. intros o d rg n fb i sig ids fb' I W. exact (wf_occupied o _ sig ids fb' I W). Qed.
+
+Lemma wf_vacant' : forall o d rg n fb i sig fb' I,
+  wf o {| disp_of := d; reg := rg; next_id := n; fallback := fb; inst := i |} ->
+  lookup sig rg = None -> os_query o sig = true -> os_set o sig = true ->
+  (n + 1 < 2 ^ 128)%N -> inst_grows sig i I ->
+  wf o {| disp_of := set_disp d sig Lib; reg := rg ++ [(sig, [n])]; next_id := id_succ n; fallback := fb'; inst := I |}.
+Proof. intros o d rg n fb i sig fb' I W. exact (wf_vacant o _ sig fb' I W). Qed.
+
 Lemma in_table_rev : forall s, (as_usize s <? MAX_SIGNUM) = true -> (s <? 0) = false -> out_of_table s = false.
 Proof.
   intros s H1 H2. unfold out_of_table. rewrite H2. cbn. unfold as_usize in H1. rewrite H2 in H1.
@@ -407,12 +420,11 @@ Proof.
   each_checked Hf;
     (remember (entry o k _ sig _) as r eqn:Hr; ev_in Hr; rewrite ?in_inst_nil in Hr; ev_in Hr;
      repeat (first [split_atom Hr | destruct k]; ev_in Hr; rewrite ?in_inst_nil in Hr; ev_in Hr);
-     subst r; unfold r_state; cbn [fst snd];
+     subst r; unfold r_state; cbn [fst snd app];
      first [ exact W
-           | apply (wf_ext o _ _ eq_refl eq_refl eq_refl (eq_sym (Hnew eq_refl)) W)
-           | apply (wf_ext o _ _ eq_refl eq_refl eq_refl eq_refl W)
-           | eapply (wf_occupied o _ sig); [exact W|eassumption|exact Hn|grows_tac]
-           | eapply (wf_vacant o _ sig); [exact W|eassumption|eassumption|eassumption|exact Hn|grows_tac] ]).
+           | refine (wf_ext o _ _ _ _ _ _ W); cbn [disp_of reg next_id inst]; solve [reflexivity | symmetry; apply Hnew; reflexivity]
+           | eapply wf_occupied'; [exact W|eassumption|exact Hn|grows_tac]
+           | eapply wf_vacant'; [exact W|eassumption|eassumption|eassumption|exact Hn|grows_tac] ]).
 Qed.
 
 (** ---- non-vacuity: a concrete Linux/glibc verdict table (the probe re-measures it on every run)
